@@ -131,5 +131,6 @@ let dispatch kind args = match kind with
   | "count" -> run_count args
   | "meter" -> run_meter args
   | "tiles" -> run_tiles args
+  | "meterx" -> "model-skipped"            (* implementation-only cases (see lib/props/c10.py) *)
   | _ -> "unknown-kind " ^ kind
 let () = main_loop dispatch
